@@ -78,7 +78,9 @@ func (a *adapterClient) deliver(idx int, in input) outcome {
 	// loop must come to an end and publish it on Closed()
 	cause, o := await(tr.Closed(), nil, adapterReadLoop)
 	if o.kind != "ok" {
-		o.note = "adapter transport never reported the end of the stream on Closed(): " + o.note
+		if o.kind == "stall" {
+			o.note = "adapter transport never reported the end of the stream on Closed(): " + o.note
+		}
 		return o
 	}
 	how := "/clean-close"
@@ -95,7 +97,9 @@ func (a *adapterClient) deliver(idx int, in input) outcome {
 		// a frame reached the caller: the call must come back (value or error)
 		r, o := await(done, nil, "")
 		if o.kind != "ok" {
-			o.note = "call that was handed a response frame never returned: " + o.note
+			if o.kind == "stall" {
+				o.note = "call that was handed a response frame never returned: " + o.note
+			}
 			return o
 		}
 		if r.ok {
@@ -109,7 +113,9 @@ func (a *adapterClient) deliver(idx int, in input) outcome {
 	}
 	r, o := await(done2, nil, "")
 	if o.kind != "ok" {
-		o.note = "canary call on a new adapter transport never returned: " + o.note
+		if o.kind == "stall" {
+			o.note = "canary call on a new adapter transport never returned: " + o.note
+		}
 		return o
 	}
 	tr2.Close()
@@ -202,12 +208,16 @@ func (n *natsClient) call(base int, opid uint64, msgs []*nats.Msg) (callResult, 
 	// callback once the fence has been dispatched
 	_, o := await(n.hook.ch, func(e hookEv) bool { return e.point == "dispatch.unknown" && e.opid == fenceOpid }, "")
 	if o.kind != "ok" {
-		o.note = "a well-formed frame published on the inbox after the input was never dispatched: " + o.note
+		if o.kind == "stall" {
+			o.note = "a well-formed frame published on the inbox after the input was never dispatched: " + o.note
+		}
 		return callResult{}, o
 	}
 	r, o := await(done, nil, "")
 	if o.kind != "ok" {
-		o.note = "call never returned although a valid response was published on its inbox: " + o.note
+		if o.kind == "stall" {
+			o.note = "call never returned although a valid response was published on its inbox: " + o.note
+		}
 	}
 	return r, o
 }
